@@ -278,17 +278,21 @@ class ClassInfo(object):
 
 
 class Module(object):
-    def __init__(self, repo, name, path):
+    def __init__(self, repo, name, path, src=None, tree=None):
         self.repo = repo
         self.name = name  # short name, e.g. 'scheduler'
         self.path = path
         self.relpath = os.path.relpath(path, repo.root)
-        with open(path) as f:
-            self.src = f.read()
+        if src is None:
+            with open(path) as f:
+                src = f.read()
+        self.src = src
         self.lines = self.src.split("\n")
-        self.tree = ast.parse(self.src, path)
         from .inline import inline_module, normalize_module
-        normalize_module(self.tree)
+        if tree is None:
+            tree = ast.parse(self.src, path)
+            normalize_module(tree)
+        self.tree = tree
         self.inlined = inline_module(self.tree, name)  # {class name or None: helper names analysed at their call sites}
         for parent in ast.walk(self.tree):
             for child in ast.iter_child_nodes(parent):
@@ -388,14 +392,25 @@ class Repo(object):
             raise AnalysisError("package directory %s not found" % self.pkg)
         self.modules = {}
         self.digests = {}
+        from .inline import normalize_module, normalize_package
+        parsed = {}
         for fn in sorted(os.listdir(self.pkg)):
             if fn.endswith(".py"):
                 name = fn[:-3]
                 path = os.path.join(self.pkg, fn)
                 try:
-                    self.modules[name] = Module(self, name, path)
+                    with open(path) as f:
+                        src = f.read()
+                    tree = ast.parse(src, path)
                 except SyntaxError as e:
                     raise AnalysisError("cannot parse %s: %s" % (path, e))
+                normalize_module(tree)
+                parsed[name] = (path, src, tree)
+        self.package_notes = normalize_package(dict((n, v[2]) for n, v in parsed.items()))
+        for name in sorted(parsed):
+            path, src, tree = parsed[name]
+            if True:
+                self.modules[name] = Module(self, name, path, src, tree)
                 self._digest(path)
                 if self.modules[name].pxd_path:
                     self._digest(self.modules[name].pxd_path)
